@@ -159,3 +159,35 @@ Theorem C05_nonvacuous :
   get_bal (bal ex_state) (0, 1, 0) = get_bal (bal nv_init) (0, 1, 0).
 Proof. exact c05_nonvacuous. Qed.
 Print Assumptions C05_nonvacuous.
+
+(* ---- genesis export/import (finding C05-2) and the delay of time-out refunds ---- *)
+From FxV Require Import proofs.P_C05g.
+
+(* "unique, never-reused identifier" is FALSE across a genesis export + import of the module: the counters are not part of
+   the genesis state (and the outgoing bridge calls are dropped); replayed on the real application by harness/c05 *)
+Theorem C05_ids_across_genesis_export_import_refuted :
+  reachable g_before /\
+  live g_after = live g_before /\ next_tx g_before = 5 /\ next_tx g_after = 1 /\
+  calls g_before <> [] /\ calls g_after = [] /\
+  (let s1 := step_state g_after (Send 0 2 20 30 0) in
+   ~ NoDup (ids (live s1)) /\ at_place s1 1 InPool /\ at_place s1 1 (InBatch 0 1)) /\
+  (let s2 := run g_after [Send 0 2 20 30 0; NextBlock; RequestBatch 0 1 0 0 1 true] in
+   map b_nonce (batches s2) = [1] /\ In 3 (ids (live g_after)) /\ ~ In 3 (ids (live s2)) /\
+   get_bal (bal s2) (2, 0, 0) = get_bal (bal g_after) (2, 0, 0)).
+Proof. exact export_import_refuted. Qed.
+Print Assumptions C05_ids_across_genesis_export_import_refuted.
+
+Theorem C05_genesis_export_import_keeps_records_and_patched_counters_suffice : forall s, reachable s ->
+  (live (export_import s) = live s /\ NoDup (ids (live (export_import s))) /\ NoDup (bnonces (batches (export_import s)))) /\
+  Inv (export_import_patched s).
+Proof. intros s R. pose proof (reachable_inv _ R) as I. split; [apply export_import_keeps_records | apply export_import_patched_inv]; exact I. Qed.
+Print Assumptions C05_genesis_export_import_keeps_records_and_patched_counters_suffice.
+
+(* cleanupTimeOutBridgeCall stops at the first call that has not timed out: a timed-out call is nevertheless refunded by
+   the first observed event whose height has reached the time-outs of all calls stored before it (lower nonces) and its own *)
+Theorem C05_timed_out_call_refunded_unless_an_older_call_blocks : forall s h s' evs pre c post, reachable s ->
+  accepted s (Observe h) s' evs -> calls s = pre ++ c :: post ->
+  (forall x, In x (pre ++ [c]) -> c_timeout x <= h) ->
+  ~ In (c_nonce c) (cnonces (calls s')) /\ In (EvCallRefund (c_nonce c) (c_refund c) (c_tokens c) ByTimeout) evs.
+Proof. intros s h s' evs pre c post R; apply timed_out_call_refunded_unless_blocked, reachable_inv, R. Qed.
+Print Assumptions C05_timed_out_call_refunded_unless_an_older_call_blocks.
